@@ -1331,7 +1331,7 @@ def families(tier):
     fam = []
     if tier == "quick":
         fam += [([0], [], 3, 15), ([1], [], 3, 15)]
-        fam += [([0], [0], 2, 0), ([1], [0], 1, 4), ([0], [1], 1, 0), ([0], [0], 1, 15), ([1], [1], 1, 4), ([0], [0, 1], 1, 0), ([1], [0, 0], 0, 4)]
+        fam += [([0], [0], 2, 0), ([1], [0], 2, 4), ([0], [1], 2, 0), ([0], [0], 1, 15), ([1], [1], 1, 4), ([0], [0, 1], 1, 0), ([1], [0, 0], 0, 4)]
         fam += [([0, 0], [], 0, 0), ([0, 1], [0], 0, 0), ([0, 0], [1], 0, 0)]
     else:
         fam += [([0], [], 4, 15), ([1], [], 4, 15)]
@@ -1424,7 +1424,7 @@ def run(rep, tier):
     cases = [dict(c, maximal=c.get("maximal", False), family="corpus") for c in CORPUS]
     exhaustive_note = []
     # schedules chosen by the implementation itself (no model needed): random completions from the initial state
-    free_cfg = [([0], [0], 20), ([1], [1], 20), ([0], [1, 0], 30), ([0, 1], [0], 30), ([1, 0], [1], 40), ([0, 0], [1, 0], 40), ([1, 0], [0, 0], 20)]
+    free_cfg = [([0], [0], 30), ([1], [1], 30), ([0], [1, 0], 50), ([0, 1], [0], 50), ([1, 0], [1], 50), ([0, 0], [1, 0], 60), ([1, 0], [0, 0], 30)]
     if tier != "quick":
         free_cfg = [(tm, wa, c * 5) for tm, wa, c in free_cfg] + [([0, 1, 0], [1, 0], 300), ([0, 0, 1], [0], 200)]
     for tm, wa, cnt in free_cfg:
@@ -1443,7 +1443,7 @@ def run(rep, tier):
             for s in ss:
                 cases.append({"tmos": tm, "waits": wa, "sched": s, "maximal": True, "family": f"exh:{len(tm)}j{len(wa)}s"})
         # random deeper schedules
-        rnd = [([0, 1], [0], 80, 3), ([0, 0], [1], 70, 3), ([1, 0], [0, 1], 60, 3), ([0], [1, 0], 30, 4), ([0, 1], [1, 0], 60, 3)] if tier == "quick" else \
+        rnd = [([0, 1], [0], 120, 3), ([0, 0], [1], 100, 3), ([1, 0], [0, 1], 80, 3), ([0], [1, 0], 50, 4), ([0, 1], [1, 0], 80, 3)] if tier == "quick" else \
               [([0, 1], [0], 700, 4), ([0, 0], [1], 500, 4), ([1, 0], [0, 1], 500, 4), ([0, 1], [1, 0], 500, 4), ([0, 1, 0], [0], 700, 3), ([0, 0, 1], [1], 500, 3), ([0, 1, 0], [0, 1], 500, 3)]
         for tm, wa, cnt, P_ in rnd:
             for s in random_schedules(exe, r, tm, wa, cnt, P_):
@@ -1458,18 +1458,19 @@ def run(rep, tier):
         rand_async = pool.map_async(real_random_run, [r.randrange(1 << 30) for _ in range(nreal)], chunksize=1) if nreal else None
         real = real_async.get(600)
         rand_real = rand_async.get(1500) if rand_async else []
-        ex_cfgs = [([0], [0], 1, 0), ([0], [1], 1, 0), ([1], [1], 0, 6), ([0], [1, 0], 1, 0), ([0, 0], [0], 0, 0)] if tier == "quick" else \
+        ex_cfgs = [([0], [0], 2, 0), ([0], [1], 2, 0), ([1], [1], 1, 4), ([1], [0], 1, 6), ([0], [1, 0], 1, 0), ([0, 0], [0], 0, 0), ([0, 0], [1], 0, 0)] if tier == "quick" else \
                   [([0], [0], 2, 15), ([1], [1], 2, 4), ([0], [1, 0], 1, 0), ([1], [0, 0], 1, 4), ([0, 0], [0], 1, 0), ([0, 1], [1], 0, 4)]
-        ex_cases, ex_res, ex_notes = explore_impl(pool, ex_cfgs, 300 if tier == "quick" else 1500)
+        ex_cases, ex_res, ex_notes = explore_impl(pool, ex_cfgs, 600 if tier == "quick" else 1500)
         exhaustive_note += ex_notes
         impl = []
         nerr = 0
-        for res_ in pool.imap(impl_run_safe, cases, chunksize=4):
-            impl.append(res_)
-            if res_["error"] is not None:
-                nerr += 1
-                if nerr >= 40:
-                    break          # something is badly broken: do not wait for thousands of time-outs
+        for off in range(0, len(cases), 320):
+            # in batches, so that no task is left queued in the pool when we stop early
+            part = pool.map(impl_run_safe, cases[off:off + 320], chunksize=4)
+            impl += part
+            nerr += sum(1 for x in part if x["error"] is not None)
+            if nerr >= 40:
+                break              # something is badly broken: do not wait for thousands of time-outs
         skipped = len(cases) - len(impl)
         if skipped:
             cases = cases[:len(impl)]
@@ -1512,7 +1513,7 @@ def run(rep, tier):
     phase["model_trace_s"] = round(time.time() - t_ph, 1)
     rep.coverage["phase_wall_s"] = phase
     known_hist = {}
-    nbad = 0
+    nbad = nfi = 0
     for i, c in enumerate(cases):
         res = impl[i]
         labels, iobs = events[i]
@@ -1557,8 +1558,8 @@ def run(rep, tier):
             if not ok:
                 rep.fail("broken-tie", f"the Coq witness {c['name']} does not reproduce on the real classes (error={res['error']}, violations={viol})", case=casedoc)
         for v in unknown_v:
-            nbad += 1
-            if nbad <= 12:
+            nfi += 1
+            if nfi <= 12:
                 rep.fail("failing-input", f"property violated on the real classes: {v['clause']} / {v['cause']}: {v['detail']} -- the implementation did [{show(labels)}] jobs(tmo)={c['tmos']} shutdown(wait)={c['waits']}"
                          + (f" (forced prefix [{show(c['sched'][:res['at']])}], then it could not follow {show(c['sched'][res['at']:res['at'] + 1])}: {res['error']}; completed by releasing the first enabled thread)" if res["error"] else ""),
                          case={**casedoc, "violation": v}, sig={"clause": v["clause"], "cause": v["cause"]})
